@@ -31,6 +31,7 @@ EXPLANATION = (
     "behind untyped dictionaries (NetworkInterface.traffic / nmne) are taken at the annotation of the helper parameter "
     "that receives them."
 )
+TECHNIQUE = "static: symbolic dict-shape extraction of space/observe/default with presence conditions, interval evaluation of leaves against Discrete(n), state schema from describe_state"
 ASSUMPTIONS = [
     "gymnasium.spaces.Discrete(n) contains exactly 0..n-1 and spaces.Dict requires exactly its keys",
     "an attribute annotated int is a non-negative counter, float a non-negative real, bool is 0/1 (E6 abstract values)",
